@@ -70,6 +70,41 @@ def _replay_c09(item):
     return bad
 
 
+def _small_steps_c09(seed):
+    """Loads whose consecutive values are nearly but not exactly equal (a slow ramp, ppm-level monthly differences): every
+    increment, however small, enters the superposition. Real _simulate_detailed against the TLC-bound transliteration."""
+    import_repo()
+    import numpy as np  # noqa: PLC0415
+
+    from ghedesigner.constants import TWO_PI  # noqa: PLC0415
+    from ghedesigner.ground_heat_exchangers import BaseGHE  # noqa: PLC0415
+
+    rnd = random.Random(seed)
+    n = rnd.choice([300, 600])
+    base = rnd.choice([20000.0, -15000.0, 2.5])
+    rel = rnd.choice([1e-9, 1e-7, 3e-6, 8e-6])
+    q = [base * (1.0 + rel * i) for i in range(n)]
+    if rnd.random() < 0.5:                     # a plateau of exactly equal values in the middle (these increments ARE zero)
+        for i in range(n // 3, n // 2):
+            q[i] = q[n // 3]
+    t = [float(i + 1) for i in range(n)]
+
+    def g(x):
+        return 4.0 + 0.6 * np.asarray(x, dtype=float)
+
+    nb, k_soil, tg, H, rb, cp = 2, 1.0 / TWO_PI, 11.5, 3.0, 0.15, 4000.0
+    stub = SimpleNamespace(nbh=nb, radial_numerical=SimpleNamespace(t_s=3600.0),
+                           bhe=SimpleNamespace(soil=SimpleNamespace(k=k_soil, ugt=tg), b=SimpleNamespace(H=H), m_flow_borehole=0.4, fluid=SimpleNamespace(cp=cp),
+                                               calc_effective_borehole_resistance=lambda: rb))
+    hp, _ = BaseGHE._simulate_detailed(stub, np.array(q), np.array(t), g)
+    ref = eft_ref(q, t, g, 3600.0, TWO_PI * k_soil, H, nb, tg, rb, 0.4, cp)
+    err = float(np.max(np.abs(np.array(hp) - np.array(ref))))
+    scale = float(np.max(np.abs(np.array(ref) - tg))) or 1.0
+    if err > 1e-9 * scale:
+        return [f"loads {base} W rising by {rel:g} per step over {n} hours: simulated EFT deviates from the superposition by {err:.3g} K (departures up to {scale:.3g} K)"]
+    return []
+
+
 def _mk_real_ghe(n1, n2, H, soil_k=2.0, pipe="single", months=12, amp=9000.0, h_bore=None, gf_rb=None):
     import_repo()
     from ghedesigner.borehole import GHEBorehole  # noqa: PLC0415
@@ -274,6 +309,13 @@ def run_c09() -> int:
     chk.evaluations += len(items)
     chk.nontrivial = {(tuple(i["q"]), tuple(i["t"]), i["tab"]) for i in items}
     chk.sample({"loads": items[-1]["q"], "times": items[-1]["t"], "table": items[-1]["tab"], "dev_times_den": items[-1]["dev"], "den": items[-1]["den"]})
+    nsmall = 0
+    for sd, badl in zip(range(24), parallel_map(_small_steps_c09, [chk.seed * 41 + i for i in range(24)])):
+        nsmall += 1
+        for b in badl:
+            chk.violation(f"C09 _simulate_detailed with nearly equal consecutive loads: {b}", {"seed": sd})
+    chk.note("small_step_load_sequences", nsmall)
+    chk.traces += nsmall
     cases = [(1, 1, 96.0, 2.0, "single", 12, True), (1, 2, 88.0, 2.2, "single", 24, True), (2, 2, 61.0, 2.6, "single", 25, False), (3, 4, 134.0, 1.4, "double", 12, False), (2, 5, 80.0, 3.2, "single", 12, False)]
     if t == "thorough":
         cases += [(n1, n2, H, k, p, m, hr) for (n1, n2) in ((1, 2), (4, 5), (6, 10), (10, 12), (20, 20)) for (H, k, p, m, hr) in ((70.0, 1.8, "single", 12, False), (125.0, 2.4, "double", 37, False))]
